@@ -470,7 +470,7 @@ fn blocks(c: &Case, cnt: &mut Counts, n: &[u8], h: &[u8], wfind: i64, wrfind: i6
             let (i1, i2) = (f.pair().index1() as usize, f.pair().index2() as usize);
             pre_check("all::packedpair::find_prefilter", guard(|| f.find_prefilter(h)), i1, i2, cnt);
         }
-        #[cfg(target_arch = "x86_64")]
+        #[cfg(verif_x86)]
         {
             use memchr::arch::x86_64::{avx2, sse2};
             if let Some(f) = sse2::packedpair::Finder::new(n) {
@@ -485,6 +485,17 @@ fn blocks(c: &Case, cnt: &mut Counts, n: &[u8], h: &[u8], wfind: i64, wrfind: i6
                     c.check(cnt, "avx2::packedpair::find", guard(|| opt_to_i(f.find(h, n))), wfind);
                     let (i1, i2) = (f.pair().index1() as usize, f.pair().index2() as usize);
                     pre_check("avx2::packedpair::find_prefilter", guard(|| f.find_prefilter(h)), i1, i2, cnt);
+                }
+            }
+        }
+        #[cfg(verif_wasm)]
+        {
+            use memchr::arch::wasm32::simd128;
+            if let Some(f) = simd128::packedpair::Finder::new(n) {
+                if h.len() >= f.min_haystack_len() {
+                    c.check(cnt, "simd128::packedpair::find", guard(|| opt_to_i(f.find(h, n))), wfind);
+                    let (i1, i2) = (f.pair().index1() as usize, f.pair().index2() as usize);
+                    pre_check("simd128::packedpair::find_prefilter", guard(|| f.find_prefilter(h)), i1, i2, cnt);
                 }
             }
         }
@@ -665,6 +676,7 @@ pub fn replay(vs: &[Value], rep: &Report, o: &Opts, threads: usize) {
 // "obj" vectors (MC_MemmemObjects): operation sequences over a finder, an
 // iterator, its clone, into_owned and the death of the needle buffer.
 
+#[cfg(feature = "alloc")]
 fn obj_step<'h, 'n>(
     f: &memmem::Finder<'n>,
     it: &mut memmem::FindIter<'h, 'n>,
@@ -685,6 +697,10 @@ fn obj_step<'h, 'n>(
     }
 }
 
+#[cfg(not(feature = "alloc"))]
+pub fn replay_obj_one(_idx: usize, _v: &Value, _rep: &Report, _cnt: &mut Counts, _o: &Opts) {}
+
+#[cfg(feature = "alloc")]
 pub fn replay_obj_one(idx: usize, v: &Value, rep: &Report, cnt: &mut Counts, o: &Opts) {
     let ns = get_bytes(v, "n");
     let h1s = get_bytes(v, "h1");
